@@ -47,7 +47,9 @@ TECHNIQUE = 'runtime monitoring: single-cell reference model observed through ev
 def spellings(name):
     out = []
     for bits in itertools.product((0, 1), repeat=len(name)):
-        out.append(''.join(c.upper() if b else c.lower() for c, b in zip(name, bits)))
+        sp = ''.join(c.upper() if b else c.lower() for c, b in zip(name, bits))
+        if sp not in out:
+            out.append(sp)       # (characters without letter case give the same spelling twice)
     return out
 
 
@@ -514,7 +516,8 @@ def random_history(ctx, rng, route, length):
 def run(ctx):
     rng = ctx.rng
     jobs = []
-    for declared, ty in (('ab', 'STRING'), ('Nam', 'INTEGER'), ('Wxyz', 'STRING')):
+    # (names need not begin with a letter: the loader itself makes up _0, _1, ... and BridgePoint models use a_b)
+    for declared, ty in (('ab', 'STRING'), ('Nam', 'INTEGER'), ('Wxyz', 'STRING'), ('_kq', 'STRING'), ('x_1', 'INTEGER')):
         sps = spellings(declared)
         # all histories of <= 3 operations over {write, delete} x spellings, ctor as optional first op
         ops = [('write', sp) for sp in sps] + [('delete', sp) for sp in sps]
